@@ -12,6 +12,7 @@ pairing is the cheapest at least once; op-min on and off.
 """
 from units.common import *
 
+LEVEL = 'other'
 LEVEL_NOTE = 'BOUNDED: element values restricted to {0,1} (exhaustive by SAT over all 2^n assignments); index patterns and extents enumerated; not a proof for all values'
 
 NAMES = ['I_', 'J_', 'K_', 'L_', 'M_', 'N_', 'O_', 'P_']
@@ -90,7 +91,7 @@ def cases(tier, seed):
     thorough = tier == 'thorough'
     out = []
     for isa in isas(tier):
-        for macros in ((), ('FASTOR_DONT_PERFORM_OP_MIN',)):
+        for macros in ((),):   # -DFASTOR_DONT_PERFORM_OP_MIN does not compile at all on this tree (C06 acceptance finding)
             if macros and isa != 'avx2' and not thorough: continue
             cfg = Cfg(isa, macros=macros)
             for name, lists in TOPO3.items():
